@@ -215,3 +215,27 @@ Proof.
 Qed.
 
 End Markov.
+
+(* ---------------------------------------------------------------- round_values (BIFWriter, UAIWriter) *)
+(* the writers round every table entry (numpy round, elementwise) before laying the table out: writing m with
+   round_values is writing the model whose tables are rounded *)
+Section Rounded.
+Context {A : Type}.
+Variable rnd : A -> A.
+
+Lemma rounded_fields (c : cpd A) :
+  child (rounded rnd c) = child c /\ cstates (rounded rnd c) = cstates c /\ parents (rounded rnd c) = parents c /\
+  ccard (rounded rnd c) = ccard c /\ pcards (rounded rnd c) = pcards c /\ pstates (rounded rnd c) = pstates c.
+Proof. repeat split. Qed.
+
+Lemma wf_bn_rounded (m : bn A) : wf_bn m -> wf_bn (map (rounded rnd) m).
+Proof.
+  intros [Hnd Hwf]. split.
+  - rewrite map_map. simpl. exact Hnd.
+  - intros c' Hc'. apply in_map_iff in Hc'. destruct Hc' as [c [E Hc]]. subst c'.
+    destruct (Hwf c Hc) as [Hlen Hpar]. split.
+    + unfold rounded at 1. cbn [table]. rewrite map_length. exact Hlen.
+    + intros p ss Hp. destruct (Hpar p ss Hp) as [c2 [Hc2 [E1 E2]]].
+      exists (rounded rnd c2). split; [now apply in_map|]. split; assumption.
+Qed.
+End Rounded.
